@@ -321,9 +321,22 @@ def enumerate_ilp(p, observed, maximize, node_cap=5_000_000, gap=0):
             return val, list(lo)
         c = aux[k]
         l, h = lo[c], hi[c]
-        if h - l > 100000:
-            raise HarnessError("FakeCBC: unbounded column %s" % p.colnames[c])
         a = sign * p.obj.get(c, 0)
+        if h - l > 100000:
+            # a column left (half-)unbounded, e.g. an objective variable whose
+            # bound was removed: search a window starting at the end that the
+            # objective prefers (or the finite end / zero for a neutral column)
+            if a > 0 and h < INF:
+                l = h - 3000
+            elif a < 0 and l > -INF:
+                h = l + 3000
+            elif a == 0 and l > -INF:
+                h = l + 2000
+            elif a == 0 and h < INF:
+                l = h - 2000
+            else:
+                raise HarnessError("FakeCBC: column %s unbounded in the direction the "
+                                   "objective prefers" % p.colnames[c])
         order = range(h, l - 1, -1) if a > 0 else range(l, h + 1)
         found = None
         cur = incumbent
